@@ -41,8 +41,12 @@ fn zip_function_args<E: Evaluator>(
     params: &DefunParams,
     args: &TulispObject,
 ) -> Result<(), Error> {
+    // Evaluate every argument in the caller's scope first; bind the parameters
+    // only afterwards, so that an argument expression never sees a parameter
+    // binding of the call that is being set up.
     let mut args_iter = args.base_iter();
     let mut eval_result = None;
+    let mut values = Vec::with_capacity(params.iter().len());
     for param in params.iter() {
         let val = if param.is_optional {
             match args_iter.next() {
@@ -68,13 +72,21 @@ fn zip_function_args<E: Evaluator>(
                 "Too few arguments".to_string(),
             ));
         };
-        param.param.set_scope(val)?;
+        values.push(val);
     }
     if args_iter.next().is_some() {
         return Err(Error::new(
             ErrorKind::TypeMismatch,
             "Too many arguments".to_string(),
         ));
+    }
+    for (idx, (param, val)) in params.iter().zip(values).enumerate() {
+        if let Err(e) = param.param.set_scope(val) {
+            for bound in params.iter().take(idx) {
+                bound.param.unset()?;
+            }
+            return Err(e);
+        }
     }
     Ok(())
 }
